@@ -125,7 +125,7 @@ def init(project_dir):
     "-v",
     "--verbose",
     type=click.Choice(["warning", "debug", "info", "error"]),
-    default="info",
+    default=None,
     help="Verbosity level.",
 )
 @click.option(
@@ -141,8 +141,6 @@ def main(ctx, file, backend, verbose, no_color):
 
     Shows help for the status command.
     """
-    configure_logging(level_name=verbose)
-
     try:
         path, obj_name = find_workflow(file)
         working_dir = path.parent
@@ -160,6 +158,13 @@ def main(ctx, file, backend, verbose, no_color):
     working_dir.joinpath(".gwf", "logs").mkdir(exist_ok=True)
 
     config = FileConfig.load(working_dir.joinpath(".gwfconf.json"))
+
+    # The --verbose flag wins over the `verbose` setting of the project
+    # configuration, which wins over the default.
+    level_name = verbose or config.get("verbose")
+    if level_name not in LOGGING_FORMATS:
+        level_name = "info"
+    configure_logging(level_name=level_name)
 
     # If the --use-color/--no-color argument is not set, get a value from the
     # configuration file. If nothing has been configured, check if the NO_COLOR
